@@ -55,12 +55,23 @@ def absorb(ctx, rep, label, aspects, devs):
 
 
 def loadhist(ctx, vecs, label, aspects, devs, extra=()):
-    vp = os.path.join(ctx.scratch, "hist-%s.json" % label)
-    with open(vp, "w") as fh:
-        json.dump(vecs, fh)
-    rep = vlib.run_harness_json(ctx, "schema", ["loadhist", "-vectors", vp] + list(extra), timeout=3000)
-    absorb(ctx, rep, label, aspects, devs)
-    return rep
+    """Replay histories on real roots; the histories are independent, so they are spread over several harness processes."""
+    import concurrent.futures
+    vlib.go_build(ctx, "schema")
+    nsh = 1 if len(vecs) < 200 else (6 if ctx.tier == "quick" else 12)
+    paths = []
+    for k in range(nsh):
+        vp = os.path.join(ctx.scratch, "hist-%s-%d.json" % (label, k))
+        with open(vp, "w") as fh:
+            json.dump(vecs[k::nsh], fh)
+        paths.append(vp)
+    with concurrent.futures.ThreadPoolExecutor(max_workers=nsh) as ex:
+        reps = list(ex.map(lambda vp: vlib.run_harness_json(ctx, "schema", ["loadhist", "-vectors", vp] + list(extra), timeout=3000), paths))
+    for vp in paths:
+        os.remove(vp)
+    for rep in reps:
+        absorb(ctx, rep, label, aspects, devs)
+    return reps[0]
 
 
 TRACE_CFG = """SPECIFICATION TSpec
@@ -174,6 +185,11 @@ def run_c13(ctx):
     res = vlib.run_tlc(ctx, "MCRules", RULES_CFG.format(known=tlaset(sorted(devs)), intro="FALSE"), timeout=3400, xss="64m")
     vlib.require_clean(res, "MCRules")
     rep = loadhist(ctx, res.vecs, "mutations", {"verdict", "offender", "schema"}, devs, extra=["-offender"])
+    # the rules hold for the schema as a whole: a later load that breaks a rule for a type loaded earlier is refused too
+    for k, prefixes in ([(1, ["p1", "p2", "p3"])] if ctx.tier == "quick" else [(2, ["p1", "p2", "p3"])]):
+        hres = vlib.run_tlc(ctx, "MCLoader", LOADER_CFG.format(n=k, prefixes=tlaset(prefixes), known=tlaset(sorted(devs)), intro="FALSE"), timeout=3400, xss="64m")
+        vlib.require_clean(hres, "MCLoader")
+        loadhist(ctx, hres.vecs, "histories-%d-%s" % (k, "".join(prefixes)), {"verdict", "schema"}, devs)
     record_and_judge(ctx, devs, 300 if ctx.tier == "quick" else 4000)
     muts = sorted({v["tag"].split(":", 1)[1] for v in res.vecs})
     ctx.extra["mutation_kinds"] = muts
